@@ -202,6 +202,12 @@ func runL4Case(c *l4Case) (obs *l4Obs) {
 	}()
 	sqldb, st := fakedrv.Open()
 	sqldb.SetMaxOpenConns(1)
+	if strings.HasPrefix(c.Path, "tx") {
+		// a second connection is available but must never be needed: everything a TX runs
+		// is on the transaction's connection (a statement that strays is then observed on
+		// another connection instead of deadlocking)
+		sqldb.SetMaxOpenConns(2)
+	}
 	defer sqldb.Close()
 	db := sqlair.NewDB(sqldb)
 	q := l4NoOutSQL
@@ -536,6 +542,9 @@ func runL4(args []string) {
 				Detail: "the operation did not return within 15 s (deadlock / exhausted connection pool: the pool has one connection)"}
 			rep.addCrash(f)
 			rep.addHolds("C13", f)
+			if strings.HasPrefix(c.Path, "tx") {
+				rep.addHolds("C12", f)
+			}
 			return
 		}
 		nontrivial := len(obs.Events) > 0
